@@ -896,7 +896,10 @@ class Filter(base.Filter):
 
     def sanitize_css(self, style):
         # disallow urls
-        style = re.compile(r'url\s*\(\s*[^\s)]+?\s*\)\s*').sub(' ', style)
+        style = re.compile(r'url\s*\(\s*[^\s)]+?\s*\)\s*', re.I).sub(' ', style)
+        # whatever url( is still there is malformed; refuse it rather than pass it on
+        if re.search(r'url\s*\(', style, re.I):
+            return ''
 
         # gauntlet
         if not re.match(r"""^([:,;#%.\sa-zA-Z0-9!]|\w-\w|'[\s\w]+'|"[\s\w]+"|\([\d,\s]+\))*$""", style):
